@@ -762,4 +762,74 @@ theorem Version_parse_eq (s : List Char) (h : ¬ MAX_LENGTH < utf8Len s) :
   simp only [h, ↓reduceIte, version_eq]
   cases versionP s <;> rfl
 
+/-! ### the public entry points -/
+
+theorem utf8Len_cons' (c : Char) (t : List Char) : utf8Len (c :: t) = c.utf8Size + utf8Len t := by
+  simp [utf8Len]
+
+theorem charIndices_last (n : Nat) (s : List Char) :
+    (Rust.charIndicesFrom n s).getLast? = s.getLast?.map (fun c => (n + utf8Len s - c.utf8Size, c)) := by
+  induction s generalizing n with
+  | nil => rfl
+  | cons c t ih =>
+    cases t with
+    | nil => simp [Rust.charIndicesFrom, utf8Len]
+    | cons d t2 =>
+      have := ih (n + c.utf8Size)
+      simp only [Rust.charIndicesFrom, List.getLast?_cons_cons] at this ⊢
+      rw [this]
+      cases (d :: t2).getLast? with
+      | none => rfl
+      | some x =>
+        simp only [Option.map_some, Option.some.injEq, Prod.mk.injEq, and_true]
+        rw [utf8Len_cons' c (d :: t2)]
+        omega
+
+theorem last_char_offset (s : List Char) :
+    Rust.map_or (Rust.next_back (Rust.char_indices s)) 0 (fun (x : Nat × Char) => x.1) =
+      match s.getLast? with
+      | some c => utf8Len s - c.utf8Size
+      | none => 0 := by
+  simp only [Rust.next_back, Rust.char_indices, charIndices_last]
+  cases s.getLast? <;> simp [Rust.map_or]
+
+theorem n_gt (a b : Nat) : Rust.gt a b = decide (b < a) := by
+  simp only [Rust.gt, ROrd.cmp]; rw [Bool.eq_iff_iff]; simp [Nat.compare_eq_gt]
+
+theorem str_len (s : List Char) : Rust.len s = utf8Len s := rfl
+
+theorem Version_parse (s : List Char) : Version.rs_parse s = Version.parse s := by
+  unfold Version.rs_parse Version.parse
+  simp only [str_len, n_gt, Rust.into, RInto.into, Rust.span_offset, id]
+  by_cases h : MAX_LENGTH < utf8Len s
+  · simp only [h, decide_true, ↓reduceIte]
+    have := last_char_offset s
+    simp only [bind, Except.bind, throw, throwThe, MonadExceptOf.throw] at this ⊢
+    rw [show (fun (x : Nat × Char) => match x with | (i, _) => i) = (fun x => x.1) from by funext x; obtain ⟨i, c⟩ := x; rfl]
+    rw [this]
+    congr 2 <;> (cases s.getLast? <;> rfl)
+  · simp only [h, decide_false, Bool.false_eq_true, ↓reduceIte, Winnow.run, version_eq]
+    cases versionP s with
+    | ok v r => rfl
+    | err e =>
+      simp only [bind, Except.bind, pure, Except.pure, throw, throwThe, MonadExceptOf.throw, Rust.ptr_diff, PErr.input,
+        PErr.finalKind, PErr.context]
+      congr 2
+      cases e.kind <;> cases e.ctx <;> rfl
+
+theorem Range_parse (s : List Char) : Range.rs_parse s = Range.parse s := by
+  unfold Range.rs_parse
+  rw [Range_parse_eq]
+  simp only [Winnow.run, Rust.into, RInto.into, Rust.span_offset, id]
+  cases hg : Semver.Gen.range_set s with
+  | ok r rest => rfl
+  | err e =>
+    have hr : e.rest = s := by
+      rw [range_set_eq] at hg
+      split at hg <;> cases hg; rfl
+    simp only [bind, Except.bind, pure, Except.pure, throw, throwThe, MonadExceptOf.throw, Rust.ptr_diff, PErr.input,
+      PErr.finalKind, PErr.context, hr]
+    congr 2
+    cases e.kind <;> cases e.ctx <;> rfl
+
 end Semver.GenEquiv
